@@ -499,6 +499,8 @@ class Node:
         # strings
         seen_keys = set()  # type: Set[str]
         for item in attr_node.seq_items():
+            if not item.is_mapping():
+                return
             key_attr_node = item.get_attribute(key_attribute)
             if not key_attr_node.is_scalar(str):
                 raise SeasoningError('Expected a string here')
